@@ -1,5 +1,6 @@
 import AdbModel
 import AdbModel.Py
+import AdbProofs.Lemmas.PySimpAttr
 /-
   Encodings of model values as `Py.Val` (what the corresponding Python object looks like), used to state the
   refinement theorems between the GENERATED translation of the source (`Adb.Src.*`) and the hand-written model.
@@ -26,7 +27,7 @@ namespace Adb
 open Py
 
 /-- `min(a, b)` of two numbers is the model's `min` -/
-@[simp] theorem Py.min2_int (x y : Int) : Py.min2 (.int x) (.int y) = .ok (.int (min x y)) := by
+@[simp, pysimp] theorem Py.min2_int (x y : Int) : Py.min2 (.int x) (.int y) = .ok (.int (min x y)) := by
   simp only [Py.min2, Py.asInt, bind, Except.bind, pure, Except.pure]
   by_cases h : y < x
   · have : min x y = y := by omega
@@ -34,10 +35,10 @@ open Py
   · have : min x y = x := by omega
     simp [h, this]
 
-@[simp] theorem Py.min2_none_left (v : Py.Val) : Py.min2 .none v = .error .typeError := by
+@[simp, pysimp] theorem Py.min2_none_left (v : Py.Val) : Py.min2 .none v = .error .typeError := by
   simp [Py.min2, Py.asInt, bind, Except.bind, throw, throwThe, MonadExceptOf.throw]
 
-@[simp] theorem Py.min2_int_none (x : Int) : Py.min2 (.int x) .none = .error .typeError := by
+@[simp, pysimp] theorem Py.min2_int_none (x : Int) : Py.min2 (.int x) .none = .error .typeError := by
   simp [Py.min2, Py.asInt, bind, Except.bind, throw, throwThe, MonadExceptOf.throw, pure, Except.pure]
 
 end Adb
@@ -45,7 +46,7 @@ end Adb
 namespace Adb
 open Py
 
-@[simp] theorem Py.alookupS_asetS_same (k : String) (v : Py.Val) (fs : List (String × Py.Val)) :
+@[simp, pysimp] theorem Py.alookupS_asetS_same (k : String) (v : Py.Val) (fs : List (String × Py.Val)) :
     Py.alookupS k (Py.asetS k v fs) = some v := by
   induction fs with
   | nil => simp [Py.asetS, Py.alookupS]
@@ -86,22 +87,66 @@ namespace Adb
 open Py
 
 /-! scalar operations on the value kinds the ids take (ints and `None`) -/
-@[simp] theorem Py.eqV_int_int (a b : Int) : Py.eqV (.int a) (.int b) = .ok (.bool (a == b)) := by
+@[simp, pysimp] theorem Py.eqV_int_int (a b : Int) : Py.eqV (.int a) (.int b) = .ok (.bool (a == b)) := by
   simp [Py.eqV, Py.eq, bind, Except.bind, pure, Except.pure]
-@[simp] theorem Py.eqV_int_none (a : Int) : Py.eqV (.int a) .none = .ok (.bool false) := by
+@[simp, pysimp] theorem Py.eqV_int_none (a : Int) : Py.eqV (.int a) .none = .ok (.bool false) := by
   simp [Py.eqV, Py.eq, bind, Except.bind, pure, Except.pure]
-@[simp] theorem Py.isV_none_none : Py.isV .none .none = .ok (.bool true) := by simp [Py.isV, pure, Except.pure]
-@[simp] theorem Py.isV_int_none (a : Int) : Py.isV (.int a) .none = .ok (.bool false) := by simp [Py.isV, pure, Except.pure]
-@[simp] theorem Py.inV_int_pair (a b : Int) : Py.inV (.int a) (.tuple [.int 0, .int b]) = .ok (.bool (a == 0 || a == b)) := by
+@[simp, pysimp] theorem Py.isV_none_none : Py.isV .none .none = .ok (.bool true) := by simp [Py.isV, pure, Except.pure]
+@[simp, pysimp] theorem Py.isV_int_none (a : Int) : Py.isV (.int a) .none = .ok (.bool false) := by simp [Py.isV, pure, Except.pure]
+@[simp, pysimp] theorem Py.inV_int_pair (a b : Int) : Py.inV (.int a) (.tuple [.int 0, .int b]) = .ok (.bool (a == 0 || a == b)) := by
   by_cases h0 : a = 0 <;> by_cases hb : a = b <;> simp [Py.inV, Py.contains, Py.anyEq, Py.eq, bind, Except.bind, pure, Except.pure, h0, hb]
-@[simp] theorem Py.inV_int_pair_none (a : Int) : Py.inV (.int a) (.tuple [.int 0, .none]) = .ok (.bool (a == 0)) := by
+@[simp, pysimp] theorem Py.inV_int_pair_none (a : Int) : Py.inV (.int a) (.tuple [.int 0, .none]) = .ok (.bool (a == 0)) := by
   by_cases h0 : a = 0 <;> simp [Py.inV, Py.contains, Py.anyEq, Py.eq, bind, Except.bind, pure, Except.pure, h0]
-@[simp] theorem Py.andV_bool (b : Bool) (x : Py.M Py.Val) : Py.andV (.bool b) x = if b then x else .ok (.bool false) := by
+@[simp, pysimp] theorem Py.andV_bool (b : Bool) (x : Py.M Py.Val) : Py.andV (.bool b) x = if b then x else .ok (.bool false) := by
   cases b <;> simp [Py.andV, Py.truthy, bind, Except.bind, pure, Except.pure]
-@[simp] theorem Py.orV_bool (b : Bool) (x : Py.M Py.Val) : Py.orV (.bool b) x = if b then .ok (.bool true) else x := by
+@[simp, pysimp] theorem Py.orV_bool (b : Bool) (x : Py.M Py.Val) : Py.orV (.bool b) x = if b then .ok (.bool true) else x := by
   cases b <;> simp [Py.orV, Py.truthy, bind, Except.bind, pure, Except.pure]
-@[simp] theorem Py.not_bool (b : Bool) : Py.not_ (.bool b) = .ok (.bool (!b)) := by
+@[simp, pysimp] theorem Py.not_bool (b : Bool) : Py.not_ (.bool b) = .ok (.bool (!b)) := by
   simp [Py.not_, Py.truthy, bind, Except.bind, pure, Except.pure]
-@[simp] theorem Py.truthy_bool (b : Bool) : Py.truthy (.bool b) = .ok b := by simp [Py.truthy, pure, Except.pure]
+@[simp, pysimp] theorem Py.truthy_bool (b : Bool) : Py.truthy (.bool b) = .ok b := by simp [Py.truthy, pure, Except.pure]
+
+end Adb
+
+namespace Adb
+open Py
+
+/-! More evaluation rules (all tagged `pysimp`): with `simp [Src.f, pysimp]` a generated definition applied to values of known shape
+    evaluates to a closed term, whatever the statement order / temporaries / if-style of the current source. -/
+@[pysimp] theorem Py.neV_int_int (a b : Int) : Py.neV (.int a) (.int b) = .ok (.bool (!(a == b))) := by
+  simp [Py.neV, Py.eq, bind, Except.bind, pure, Except.pure]
+@[pysimp] theorem Py.neV_int_none (a : Int) : Py.neV (.int a) .none = .ok (.bool true) := by
+  simp [Py.neV, Py.eq, bind, Except.bind, pure, Except.pure]
+@[pysimp] theorem Py.isNotV_none_none : Py.isNotV .none .none = .ok (.bool false) := by simp [Py.isNotV, Py.isV, bind, Except.bind, pure, Except.pure]
+@[pysimp] theorem Py.isNotV_int_none (a : Int) : Py.isNotV (.int a) .none = .ok (.bool true) := by simp [Py.isNotV, Py.isV, bind, Except.bind, pure, Except.pure]
+@[pysimp] theorem Py.ltV_int (a b : Int) : Py.ltV (.int a) (.int b) = .ok (.bool (decide (a < b))) := by simp [Py.ltV, Py.asInt, bind, Except.bind, pure, Except.pure]
+@[pysimp] theorem Py.leV_int (a b : Int) : Py.leV (.int a) (.int b) = .ok (.bool (decide (a ≤ b))) := by simp [Py.leV, Py.asInt, bind, Except.bind, pure, Except.pure]
+@[pysimp] theorem Py.gtV_int (a b : Int) : Py.gtV (.int a) (.int b) = .ok (.bool (decide (b < a))) := by simp [Py.gtV, Py.asInt, bind, Except.bind, pure, Except.pure]
+@[pysimp] theorem Py.geV_int (a b : Int) : Py.geV (.int a) (.int b) = .ok (.bool (decide (b ≤ a))) := by simp [Py.geV, Py.asInt, bind, Except.bind, pure, Except.pure]
+@[pysimp] theorem Py.add_int (a b : Int) : Py.add (.int a) (.int b) = .ok (.int (a + b)) := by simp [Py.add, Py.asInt, bind, Except.bind, pure, Except.pure]
+@[pysimp] theorem Py.sub_int (a b : Int) : Py.sub (.int a) (.int b) = .ok (.int (a - b)) := by simp [Py.sub, Py.asInt, bind, Except.bind, pure, Except.pure]
+@[pysimp] theorem Py.truthy_none : Py.truthy .none = .ok false := by simp [Py.truthy, pure, Except.pure]
+@[pysimp] theorem Py.truthy_int (a : Int) : Py.truthy (.int a) = .ok (a != 0) := by simp [Py.truthy, pure, Except.pure]
+@[pysimp] theorem Py.floordiv_nat_two (n : Nat) : Py.floordiv (.int n) (.int 2) = .ok (.int ((n / 2 : Nat) : Int)) := by
+  simp [Py.floordiv, Py.asInt, bind, Except.bind, pure, Except.pure, Py.fdiv_two]
+@[pysimp] theorem Py.getAttr_obj_eq (cls : String) (fs : List (String × Py.Val)) (k : String) :
+    Py.getAttr (.obj cls fs) k = (match Py.alookupS k fs with | some v => .ok v | none => .error .attributeError) := by
+  simp only [Py.getAttr]; split <;> simp_all [pure, Except.pure, throw, throwThe, MonadExceptOf.throw]
+@[pysimp] theorem Py.setPath_attr (cls : String) (fs : List (String × Py.Val)) (k : String) (v : Py.Val) :
+    Py.setPath (.obj cls fs) [Py.Acc.attr k] v = .ok (.obj cls (Py.asetS k v fs)) := by
+  simp [Py.setPath, Py.setAcc, Py.setAttr, pure, Except.pure]
+@[pysimp] theorem Py.bind_ok' {α β : Type} (a : α) (f : α → Py.M β) : (Except.ok a >>= f) = f a := id rfl
+@[pysimp] theorem Py.bind_err' {α β : Type} (e : Py.Err) (f : α → Py.M β) : ((Except.error e : Py.M α) >>= f) = .error e := id rfl
+@[pysimp] theorem Py.pure_ok' {α : Type} (a : α) : (pure a : Py.M α) = .ok a := id rfl
+@[pysimp] theorem Py.throw_err' {α : Type} (e : Py.Err) : (throw e : Py.M α) = .error e := id rfl
+@[pysimp] theorem Py.orV_int (a : Int) (x : Py.M Py.Val) : Py.orV (.int a) x = if a != 0 then .ok (.int a) else x := by
+  by_cases h : a = 0 <;> simp [Py.orV, Py.truthy, bind, Except.bind, pure, Except.pure, h]
+@[pysimp] theorem Py.andV_int (a : Int) (x : Py.M Py.Val) : Py.andV (.int a) x = if a != 0 then x else .ok (.int a) := by
+  by_cases h : a = 0 <;> simp [Py.andV, Py.truthy, bind, Except.bind, pure, Except.pure, h]
+/-- lookups through `asetS` reduce by comparing the (literal) attribute names -/
+@[pysimp] theorem Py.alookupS_asetS (k k' : String) (v : Py.Val) (fs : List (String × Py.Val)) :
+    Py.alookupS k' (Py.asetS k v fs) = if k' = k then some v else Py.alookupS k' fs := by
+  by_cases h : k' = k
+  · subst h; simp
+  · simp [h, Py.alookupS_asetS_other k k' v fs h]
 
 end Adb
